@@ -268,6 +268,7 @@ def check(prop, tier, seed, out):
     if prop == "C13":
         out.require("cases_selected", agg.get("cases_selected", 0), 300)
         out.require("executions", agg.get("executions", 0), 300)
+        filter_pure_level(tier, seed, out)
     elif prop == "C14":
         st = c14_differential(prop, results, exe, out, tier, seed)
         out.extra["listing"] = st
@@ -297,3 +298,44 @@ def replay(prop, rp, out):
     r = rp["first"]["replay"]
     out.extra["note"] = "replays of treedrv runs re-run the whole quick tier with the recorded seed (specs are regenerated deterministically)"
     check(prop, "quick", rp.get("seed", 1), out)
+
+
+def filter_pure_level(tier, seed, out):
+    """FilterSet::is_match (SplitVec behind it) against the per-path rule, on many (filter set, path) pairs; Miri on a few."""
+    from . import purecheck
+    bins = build.build("release", ["puredrv"])
+    rng = random.Random(seed * 313 + 13)
+    hx = lambda s: s.encode("utf-8").hex() if s else "-"
+    n = 4000 if tier == "quick" else 150000
+    qs, meta = [], []
+    paths = ["a", "a::b", "a::b1", "a::b10", "crate::m::x", "crate::m::x::1", "crate::m::y", "é::ß", "a::b::c::d", "x10", "x9"]
+    pats = ["a", "b", "b1", "b1$", "^a", "a::b", "a::b1", "x", "^crate::m::x$", "m::.", "[0-9]+$", "(x|y)$", "z", "é", "b10?", "crate::m::x::1", "::"]
+    for _ in range(n):
+        path = rng.choice(paths)
+        k = rng.randrange(0, 6)
+        fl = []
+        for _ in range(k):
+            regex = rng.random() < 0.6
+            incl = rng.random() < 0.5
+            pat = rng.choice(pats) if regex else rng.choice(paths + ["a::b1", "nope"])
+            fl.append((regex, incl, pat))
+        qs.append("M %s %d %s" % (hx(path), len(fl), " ".join("%d %d %s" % (int(r), int(i), hx(p)) for r, i, p in fl)))
+        meta.append((path, fl))
+    ans = purecheck.ask(bins["puredrv"], qs)
+    import re as _re
+    checked = 0
+    for (path, fl), got, q in zip(meta, ans, qs):
+        if got == "BADREGEX":
+            continue
+        m = lambda r, p: (_re.search(p, path) is not None) if r else (p == path)
+        skip = any(m(r, p) for r, i, p in fl if not i)
+        pos = [(r, p) for r, i, p in fl if i]
+        exp = (not skip) and (not pos or any(m(r, p) for r, p in pos))
+        checked += 1
+        if got != str(int(exp)):
+            out.violation("C13:filter_set_rule", "path %r with filters %s: is_match = %s, the rule gives %d" % (path, [("regex" if r else "exact", "include" if i else "skip", p) for r, i, p in fl], got, exp),
+                          {"engine": "release", "bin": "puredrv", "query": q})
+    out.evaluations += checked
+    out.extra["filter_pure_level"] = {"pairs": checked}
+    mq = qs[:6]
+    purecheck.miri_pure("C13", mq, out)
